@@ -462,7 +462,7 @@ class C01(Prop):
             'printed by a port of wl_closure_print in old/old-comma/current(/queue) form and decoded; non-trivial = >=2 arguments, or a '
             'string with a separator character or a look-alike string, or a connection/queue tag; distinct by SHA-1 of the case. '
             'nonmessage: chatter without timestamp-shaped token, blanks and near-misses of valid lines; non-trivial = not blank. line-loop: 1-5 such lines '
-            '(strings up to 9000 characters) through the line loop and the live view; the shown line must be the message the line denotes. described: protocol-aware histories (histgen, incl. messages newer than the shipped XML, nil/array/enum arguments) through the whole pipeline; the recorded message of every line is compared field by field with the spec; non-trivial = >= 4 lines.')
+            '(strings up to 9000 characters) through the line loop and the live view; the shown line must be the message the line denotes. described: protocol-aware histories (histgen, incl. messages newer than the shipped XML, nil/array/enum arguments) through the whole pipeline; the recorded message of every line is compared field by field with the spec; non-trivial = >= 4 lines. many-tags: streams of 703..1040 different connection tags, tags and connections must correspond one to one. described histories also contain lines naming an id under another interface than its holder\'s (the recorded target interface must be the line\'s) and lines longer than 4096 characters.')
     assumptions = ['wire.py is a faithful port of libwayland wl_closure_print (old dialect checked byte-for-byte against the shipped sample logs)',
                    'strings exclude \'"\' and backslash, ids exclude 0, no `discarded` lines (stated bounds of the property)']
     stages = [RoundTrip(), NonMessages(), LineLoop(), Described(), ManyTags()]
